@@ -233,13 +233,184 @@ func (g *gen) lifecycleScenario(w *world, steps int) {
 	}
 }
 
+// short directed histories around the retransmission state machine: every sequence over a small
+// alphabet of lifecycle operations (sampled in the quick tier, enumerated in the thorough tier)
+func (g *gen) lifecycleMotif(w *world, seq []int, reqEnc bool, version int) {
+	g.lifecycleMotifKey(w, seq, reqEnc, version)
+}
+
+// runs the history, the final probe send and the oracles; returns the abstract state reached BEFORE the probe
+func (g *gen) lifecycleMotifKey(w *world, seq []int, reqEnc bool, version int) string {
+	w.parties = map[string]*party{}
+	w.dead = false
+	base := 2
+	if version == 3 {
+		base = 4
+	}
+	pa := base | 64
+	if reqEnc {
+		pa |= 8
+	}
+	a := w.newParty(partyCfg{policies: pa, keyIdx: 0, errh: true})
+	b := w.newParty(partyCfg{policies: base, keyIdx: 1, errh: true})
+	ll := &lcLink{link: &link{w: w, a: a, b: b}, sa: &lcSide{p: a, pol: pa}, sb: &lcSide{p: b, pol: base}, delivered: map[string]int{}, g: g}
+	q := w.query(a)
+	ll.sa.wire = append(ll.sa.wire, q)
+	ll.enqueue(a, []otr3.ValidMessage{q})
+	ll.settle()
+	for _, op := range seq {
+		if w.dead {
+			break
+		}
+		switch op {
+		case 0:
+			ll.sendText(a, g.cleanText())
+		case 1:
+			ll.call(a, func() ([]otr3.ValidMessage, []byte) {
+				plain, ts, _, _ := w.recv(a, []byte("?OTR Error: unreadable"))
+				return ts, plain
+			})
+		case 2:
+			ll.call(a, func() ([]otr3.ValidMessage, []byte) { ts, _ := w.end(a); return ts, nil })
+		case 3:
+			ll.call(b, func() ([]otr3.ValidMessage, []byte) { ts, _ := w.end(b); return ts, nil })
+		case 4:
+			ll.settle()
+		case 5:
+			ll.sendText(b, g.cleanText())
+		case 6:
+			w.tick(120)
+		}
+	}
+	ll.settle()
+	key := lcAbstract(a, b)
+	if w.dead {
+		key = ""
+	}
+	ll.sendText(a, g.cleanText())
+	ll.settle()
+	defer func() {}()
+	for _, s := range []*lcSide{ll.sa, ll.sb} {
+		for _, sec := range s.secrets {
+			olog.ok("C18")
+			olog.ok("C03")
+			n := ll.delivered[string(sec.text)]
+			r := ll.delivered["[resent] "+string(sec.text)]
+			if n > 1 || r > 1 || n+r > 1 && sec.why != "encrypted" {
+				olog.viol("C18", "text-transmitted-more-than-once", fmt.Sprintf("history %v (requireEncryption=%v): text %q (sent while %s) was delivered %d times and %d times as resent", seq, reqEnc, sec.text, sec.why, n, r))
+			}
+			if where := leaks(sec.text, s.wire[sec.from:]); where != "" {
+				olog.viol("C03", "text-readable-on-the-wire", fmt.Sprintf("history %v: text %q passed to Send while %s appears %s", seq, sec.text, sec.why, where))
+			}
+		}
+	}
+	return key
+}
+
+// abstract view of a two-party state used to steer the exploration of lifecycle histories
+func lcAbstract(a, b *party) string {
+	f := func(p *party) string {
+		s := otr3.VerifSnapshot(p.c)
+		rs := len(s.Resend)
+		if rs > 2 {
+			rs = 2
+		}
+		return fmt.Sprintf("%d/%d/%d/%d/%v", s.MsgState, s.MayRetx, rs, s.Whitespace, s.HasAke)
+	}
+	return f(a) + "|" + f(b)
+}
+
+// breadth-first exploration of operation sequences (network settles after every operation), extending
+// only sequences that reached a not yet seen abstract state: systematic cover of the lifecycle /
+// retransmission state machine instead of sampling it
+func (g *gen) lifecycleBFS(w *world, budget int, reqEnc bool, version int) int {
+	type node struct{ seq []int }
+	seen := map[string]bool{}
+	frontier := []node{{nil}}
+	runs := 0
+	ops := []int{0, 1, 2, 3, 5, 6}
+	for len(frontier) > 0 && runs < budget {
+		var next []node
+		for _, nd := range frontier {
+			for _, op := range ops {
+				if runs >= budget {
+					break
+				}
+				seq := append(append([]int{}, nd.seq...), op)
+				full := make([]int, 0, 2*len(seq))
+				for _, o := range seq {
+					full = append(full, o, 4)
+				}
+				key := g.lifecycleMotifKey(w, full, reqEnc, version)
+				runs++
+				if key != "" && !seen[key] {
+					seen[key] = true
+					next = append(next, node{seq})
+				}
+			}
+		}
+		frontier = next
+	}
+	g.dist[fmt.Sprintf("lifecycle-bfs:abstract-states(req=%v,v%d)", reqEnc, version)] = len(seen)
+	return runs
+}
+
 func init() {
+	profiles["lifecyclebfs"] = func(seed int64, n int, out *emitter, extra map[string]interface{}) map[string]int {
+		g := &gen{r: rand.New(rand.NewSource(seed)), out: out, dist: map[string]int{}}
+		olog = &oracleLog{checked: map[string]int{}, out: out}
+		w := newWorld(g)
+		runs := g.lifecycleBFS(w, n/2, true, 3)
+		runs += g.lifecycleBFS(w, n/4, false, 3)
+		runs += g.lifecycleBFS(w, n/4, true, 2)
+		extra["histories"] = runs
+		extra["panics"] = panicCount
+		olog.export(extra)
+		return g.dist
+	}
+	profiles["lifecyclex"] = func(seed int64, n int, out *emitter, extra map[string]interface{}) map[string]int {
+		g := &gen{r: rand.New(rand.NewSource(seed)), out: out, dist: map[string]int{}}
+		olog = &oracleLog{checked: map[string]int{}, out: out}
+		w := newWorld(g)
+		// all sequences of length L over 7 operations, L as large as the budget n allows
+		L := 1
+		for p := 7; p*7 <= n/2 && L < 6; p *= 7 {
+			L++
+		}
+		count := 0
+		var rec func(seq []int)
+		rec = func(seq []int) {
+			if len(seq) == L {
+				g.lifecycleMotif(w, seq, count%2 == 0, 2+count%2)
+				g.lifecycleMotif(w, seq, count%2 == 1, 2+(count/2)%2)
+				count++
+				return
+			}
+			for op := 0; op < 7; op++ {
+				rec(append(append([]int{}, seq...), op))
+			}
+		}
+		rec(nil)
+		extra["exhaustive_history_length"] = L
+		extra["histories"] = count * 2
+		extra["panics"] = panicCount
+		olog.export(extra)
+		return g.dist
+	}
 	profiles["lifecycle"] = func(seed int64, n int, out *emitter, extra map[string]interface{}) map[string]int {
 		g := &gen{r: rand.New(rand.NewSource(seed)), out: out, dist: map[string]int{}}
 		olog = &oracleLog{checked: map[string]int{}, out: out}
 		w := newWorld(g)
 		for i := 0; i < n; i++ {
 			g.lifecycleScenario(w, 30+g.r.Intn(50))
+			// plus sampled directed histories of length 4..6
+			for k := 0; k < 3; k++ {
+				seq := make([]int, 4+g.r.Intn(3))
+				for j := range seq {
+					seq[j] = g.r.Intn(7)
+				}
+				g.lifecycleMotif(w, seq, g.r.Intn(2) == 0, 2+g.r.Intn(2))
+			}
 		}
 		extra["panics"] = panicCount
 		olog.export(extra)
